@@ -38,9 +38,10 @@ type Failure struct {
 }
 
 type Witness struct {
-	Label  string
-	Inputs map[string]interface{}
-	Events []string
+	Decisions []int
+	Label     string
+	Inputs    map[string]interface{}
+	Events    []string
 }
 
 type Explorer struct {
@@ -380,6 +381,31 @@ func (in *Interp) decodeModel(m smt.Model) map[string]interface{} {
 }
 
 // ---- summary ----
+
+func lessDecisions(a, b []int) bool {
+	for i := 0; i < len(a) && i < len(b); i++ {
+		if a[i] != b[i] {
+			return a[i] < b[i]
+		}
+	}
+	return len(a) < len(b)
+}
+
+// Canonicalise orders failures and witnesses by their decision vectors, so that the representatives
+// chosen for replay do not depend on worker scheduling.
+func (x *Explorer) Canonicalise() {
+	sort.SliceStable(x.Failures, func(i, j int) bool { return lessDecisions(x.Failures[i].Decisions, x.Failures[j].Decisions) })
+	for l, ws := range x.ReachedAll {
+		sort.SliceStable(ws, func(i, j int) bool { return lessDecisions(ws[i].Decisions, ws[j].Decisions) })
+		if len(ws) > 4 {
+			ws = ws[:4]
+		}
+		x.ReachedAll[l] = ws
+		if len(ws) > 0 {
+			x.Reached[l] = ws[0]
+		}
+	}
+}
 
 func (x *Explorer) Summary() string {
 	var b strings.Builder
